@@ -391,9 +391,13 @@ class IdentityRun(PubSubRun):
                 w.quiesce()
         w.quiesce()
         self.res.probes["connections_churned_%d" % n] += 1
-        # now the same id, and the same name under another id, are requested by unique newcomers: both refused
-        self.raw_attempt("thief1", 7, False, b"other")
-        self.raw_attempt("thief2", 8, False, b"keeper")
+        # now the same id, and the same name under another id, are requested by unique newcomers, one connection
+        # after the other (so that whatever per-connection counter has wrapped, one of them meets the keeper's value):
+        # all refused
+        for j in range(f.get("thieves", 6)):
+            self.raw_attempt(f"thief{j}", 7, False, b"other")
+            if j % 3 == 2:
+                self.raw_attempt(f"namethief{j}", 8, False, b"keeper")
         self.raw_attempt("fine", 9, False, b"fine")
 
     def case_many_alive(self, f):
@@ -731,5 +735,5 @@ def det_cases(tier):
     cases = [dict(table="many_alive", shared=150, dynamic=60), dict(table="uid_wrap", n=2000)]
     if tier == "thorough":
         # every 16-bit per-connection counter wraps (about five minutes of simulation for this one run)
-        cases.append(dict(table="uid_wrap", n=65600, wall_s=1500))
+        cases.append(dict(table="uid_wrap", n=65400, thieves=240, wall_s=1500))
     return cases
